@@ -264,19 +264,10 @@ Proof.
   cbn [create_if_matches fst]. now rewrite P.
 Qed.
 
+(** the pre-filter hands the matcher the id itself, whatever bytes it is made of (5a727de) *)
 Lemma wf_root_some m i r :
-  wf_root_with i r -> needs_escape i = false ->
-  create_if_matches (Some m) r = if m i then [IOk (fst r) i] else [].
-Proof.
-  intros H E. pose proof (wf_root_parse i r H) as P. destruct H as (Hi & (pretty & rest & Hl) & Hm).
-  destruct r as [p ces]. cbn [create_if_matches fst snd] in *. rewrite Hl.
-  rewrite (proj2 (extract_id_spec_lemma pretty i rest Hi) E), P. reflexivity.
-Qed.
-
-(** what the pre-filter sees in general: the raw capture *)
-Lemma wf_root_some_raw m i r :
   wf_root_with i r ->
-  create_if_matches (Some m) r = if m (raw_capture i) then [IOk (fst r) i] else [].
+  create_if_matches (Some m) r = if m i then [IOk (fst r) i] else [].
 Proof.
   intros H. pose proof (wf_root_parse i r H) as P. destruct H as (Hi & (pretty & rest & Hl) & Hm).
   destruct r as [p ces]. cbn [create_if_matches fst snd] in *. rewrite Hl.
@@ -286,14 +277,6 @@ Qed.
 Lemma in_committed t r i : In r (spec_roots t) -> root_id r = [i] -> In i (committed_ids t).
 Proof.
   intros Hr Hi. unfold committed_ids. apply in_flat_map. exists r. split; [exact Hr|]. rewrite Hi. now left.
-Qed.
-
-Lemma no_escape_in t i : c19_id_needs_escape t = false -> In i (committed_ids t) -> needs_escape i = false.
-Proof.
-  unfold c19_id_needs_escape. intros H Hin.
-  destruct (needs_escape i) eqn:E; [|reflexivity].
-  assert (X : existsb needs_escape (committed_ids t) = true) by (apply existsb_exists; eauto).
-  congruence.
 Qed.
 
 (** * Listing without a glob: exact *)
@@ -326,23 +309,23 @@ Qed.
 
 (** * Listing with a matcher *)
 Lemma iter_some_wf m t :
-  Forall wf_root (spec_roots t) -> c19_id_needs_escape t = false ->
+  Forall wf_root (spec_roots t) ->
   iter_items (Some m) t =
   flat_map (fun r => flat_map (fun i => if m i then [IOk (fst r) i] else []) (root_id r)) (spec_roots t).
 Proof.
-  intros W K2.
+  intros W.
   unfold iter_items. rewrite (walk_is_spec t). apply flat_map_ext_in. intros r Hr.
   rewrite Forall_forall in W. destruct (W r Hr) as [i Hi].
   pose proof (wf_root_id i r Hi) as Ei. rewrite Ei. cbn [flat_map]. rewrite app_nil_r.
-  apply wf_root_some; [exact Hi|]. apply (no_escape_in t i K2), (in_committed t r i Hr Ei).
+  apply wf_root_some, Hi.
 Qed.
 
 Lemma listing_glob_lemma gm t g :
-  WellFormedRepo t -> c19_id_needs_escape t = false ->
+  WellFormedRepo t ->
   Permutation (listed_ids (list_objects gm t (Some g))) (filter (gm g) (committed_ids t)) /\
   listed_errors (list_objects gm t (Some g)) = [].
 Proof.
-  intros [W N] K. unfold list_objects. cbn [option_map]. rewrite (iter_some_wf (gm g) t W K).
+  intros [W N]. unfold list_objects. cbn [option_map]. rewrite (iter_some_wf (gm g) t W).
   unfold committed_ids. split.
   - rewrite filter_flat_map. unfold listed_ids. rewrite flat_map_flat_map.
     erewrite flat_map_ext_in; [apply Permutation_refl|]. intros r _. cbn beta.
@@ -418,12 +401,12 @@ Proof.
 Qed.
 
 Lemma scan_spec t id :
-  Forall wf_root (spec_roots t) -> c19_id_needs_escape t = false ->
+  Forall wf_root (spec_roots t) ->
   (forall p j, scan_for_inventory t id = Found p j -> j = id /\ In id (committed_ids t)) /\
   (In id (committed_ids t) -> exists p, scan_for_inventory t id = Found p id) /\
   (~ In id (committed_ids t) -> scan_for_inventory t id = NotFound) /\
   scan_for_inventory t id <> Corrupt /\ scan_for_inventory t id <> GenErr.
 Proof.
-  intros W K. unfold scan_for_inventory. rewrite (iter_some_wf _ t W K).
+  intros W. unfold scan_for_inventory. rewrite (iter_some_wf _ t W).
   apply (first_ok_hits id (spec_roots t)).
 Qed.
